@@ -17,8 +17,16 @@ PROP = Property(
         "aggregator_epoch_service", "verus/C20/aggregator_epoch_service.tmpl.rs",
         "extracted text of the aggregator's MithrilEpochService (shared with C20 / C06): the aggregate key and parameters 'in force for its epoch' that create_certificate reads from the epoch service are SignerBuilder's result for "
         "(the signer set recorded under e - 1, the parameters for aggregation of e)",
-        ["aggregator MithrilEpochService::inform_epoch", "aggregator MithrilEpochService::precompute_epoch_data", "aggregator MithrilEpochService::update_next_signers_with_stake"])],
+        ["aggregator MithrilEpochService::inform_epoch", "aggregator MithrilEpochService::precompute_epoch_data", "aggregator MithrilEpochService::update_next_signers_with_stake"]),
+        VerusUnit(
+        "aggregator_runner", "verus/C14/aggregator_runner.tmpl.rs",
+        "extracted text of the aggregator runner's choice of the open message to work on: get_current_open_message_for_signed_entity_type records the expiry BEFORE reading the open message; get_current_non_certified_open_message "
+        "Ok(Some(om)) ==> om is a NEW open message created for an available signed entity type without open message (for the protocol message computed for that type) or an EXISTING one that is neither certified nor expired "
+        "(loop with inductive invariant)",
+        ["aggregator AggregatorRunner::get_current_non_certified_open_message", "aggregator AggregatorRunner::get_current_open_message_for_signed_entity_type",
+         "aggregator AggregatorRunner::{mark_open_message_if_expired, compute_protocol_message, create_open_message}"])],
     replays=[dict(crate="mithril-aggregator", file=CS, module="replays/c14_certifier_service.rs"),
+             dict(crate="mithril-aggregator", file="mithril-aggregator/src/runtime/runner.rs", module="replays/c14_runner.rs", inside_tests=True),
              dict(crate="mithril-aggregator", file="mithril-aggregator/src/services/epoch_service.rs", module="replays/c20_aggregator_epoch_service.rs")],
     assumptions=[
         "PARTIAL claim: only the clauses of C14 that are decided inside one call of create_certificate / register_single_signature / verify_certificate_chain (and the epoch service's derivation of the key in force) are under contract; "
